@@ -1,6 +1,6 @@
 (* The only file with extraction directives.  Compiled by ./check in build/extract. *)
 From Coq Require Import Extraction ExtrOcamlBasic ExtrOcamlZBigInt.
-From TSS Require Import Base.Outcome Base.Bytes Base.ZMod Base.GoInt Model.Framing Model.Builder Model.Poly Model.Group Model.Curve Model.Paillier Model.Schnorr Model.MtA Model.ZKMod Model.Engine.
+From TSS Require Import Base.Outcome Base.Bytes Base.ZMod Base.GoInt Model.Framing Model.Builder Model.Poly Model.Group Model.Curve Model.Paillier Model.Schnorr Model.MtA Model.ZKMod Model.Engine Model.SignAlg Model.CKD Model.KeyStore.
 Extraction Language OCaml.
 Extraction "model.ml"
   Framing.sha512_256 Framing.sha512_256i Framing.sha512_256i_tagged Framing.sha512_256i_one
@@ -16,4 +16,6 @@ Extraction "model.ml"
   Schnorr.check_indexes Schnorr.vss_create Schnorr.vss_verify Schnorr.vss_reconstruct
   MtA.alice_prove MtA.alice_verify MtA.bob_prove MtA.bob_verify MtA.alice_init MtA.bob_mid MtA.alice_end
   ZKMod.fac_prove ZKMod.fac_verify ZKMod.mod_prove ZKMod.mod_verify ZKMod.dln_prove ZKMod.dln_verify
+  CKD.derive_child CKD.derive_hierarchy CKD.xkey_string SignAlg.ecdsa_sign SignAlg.ecdsa_finalize SignAlg.ecdsa_verify SignAlg.recover SignAlg.eddsa_sign SignAlg.kg_shares SignAlg.kg_pub SignAlg.kg_bigx SignAlg.kg_secret SignAlg.reshare_polys SignAlg.rs_shares SignAlg.sign_weights
+  KeyStore.krun KeyStore.load KeyStore.save
   Engine.init_state Engine.start Engine.deliver Engine.waiting Engine.finished Engine.running.
